@@ -780,6 +780,10 @@ class NpyArray:
         # Reset length
         self.shape = (length, ) + self.shape[1:]
         self._prepare_header_data()
+        # Write the new (shorter) header before shrinking the file so that the header never
+        # claims more rows than the file holds if the process dies in between
+        self._write_header_data()
+        self.fs.flush()
 
         self.fs.seek(self.header_length + self.size * self.itemsize)
         self.fs.truncate()
